@@ -15,7 +15,16 @@ class Context:
     @property
     def F(self):
         if self._F is None:
-            self._F = _mir.Facts(_facts.load(self.repo, "debug"))
+            doc = _facts.load(self.repo, "debug")
+            if not os.environ.get("VERIF_NO_SUBST"):
+                # a renamed private function (gone at its old path, present under a new one with the same loss-free
+                # skeleton) is given its old name back before anything else looks at the facts
+                from . import subst as _subst0
+                ren = _subst0.detect_renames(doc)
+                if ren:
+                    doc = _subst0.apply_renames(doc, ren)
+            self._F = _mir.Facts(doc)
+            self._F.renamed = doc.get("_renamed") or {}
             from . import nf as _nf
             _nf.FACTS = self._F
             if not os.environ.get("VERIF_NO_SUBST"):
@@ -24,6 +33,7 @@ class Context:
                 doc2, hits = _subst.apply(self._F)
                 if doc2 is not None:
                     self._F = _mir.Facts(doc2)
+                    self._F.renamed = doc.get("_renamed") or {}
                     self._F.substituted = hits
                     _nf.FACTS = self._F
         return self._F
